@@ -110,3 +110,23 @@ package dag
 //@   check [one-result-per-remote] len(remoteRefs) > 0 ==> sentcount(out) == len(remoteRefs)
 //@   loop 1
 //@     invariant sentcount(out) == rangeindex + 1
+
+// Remove (C14): the local ref and the remote-tracking ref of every configured remote are gone, every
+// other ref is untouched.
+//@ func Remove
+//@   props C14
+//@   requires repo != nil
+//@   let ns = def.Namespace
+//@   let sid = string(id)
+//@   ensures [local-removed]   result == nil ==> !(("refs/" + ns + "/" + sid) in repository.refs)
+//@   ensures [remotes-removed] result == nil ==> (forall r string :: { (r in repository.remotes) } (r in repository.remotes) ==> !(("refs/remotes/" + r + "/" + ns + "/" + sid) in repository.refs))
+//@   ensures [only-those]      forall k string :: { (k in repository.refs) } k != "refs/" + ns + "/" + sid && (forall r string :: { (r in repository.remotes) } (r in repository.remotes) ==> k != "refs/remotes/" + r + "/" + ns + "/" + sid) ==> (k in repository.refs) == (k in old(repository.refs)) && repository.refs[k] == old(repository.refs)[k]
+//@   loop 1
+//@     invariant len(matches) >= 1 && matches[0] == "refs/" + ns + "/" + sid && (matches == nil || fresh(matches))
+//@     invariant forall k int :: { matches[k] } 1 <= k && k < len(matches) ==> (exists r string :: (r in repository.remotes) && matches[k] == "refs/remotes/" + r + "/" + ns + "/" + sid)
+//@     invariant forall r string :: { iterseen[r] } iterseen[r] ==> (exists k int :: 1 <= k && k < len(matches) && matches[k] == "refs/remotes/" + r + "/" + ns + "/" + sid)
+//@     invariant repository.refs == old(repository.refs)
+//@   loop 2
+//@     invariant forall k int :: { matches[k] } 0 <= k && k <= rangeindex ==> !(matches[k] in repository.refs)
+//@     invariant forall q string :: { (q in repository.refs) } (forall k int :: { matches[k] } 0 <= k && k < len(matches) ==> matches[k] != q) ==> (q in repository.refs) == (q in old(repository.refs)) && repository.refs[q] == old(repository.refs)[q]
+//@     invariant forall q string :: { (q in repository.refs) } (q in repository.refs) ==> (q in old(repository.refs))
